@@ -26,7 +26,7 @@ func connCmd(args []string) int {
 	setKnown(*kn)
 	e := NewEmitter(*outp+".ops", *outp+".exp")
 	st := NewStats("conn", *seed)
-	st.Rule = "random sequences on one connection of: UPDATE s3db_conn (deadline and/or write_time: a value, NULL, '' , malformed, or not mentioned), BEGIN/COMMIT/ROLLBACK, INSERTs (whose stored write time is read back from the tree), SELECT * FROM s3db_conn; the outcome of every UPDATE, every read-back and the stamp of every statement (explicit value, or a clock reading and whether it equals the previous statement's) are compared with the Lean connection model; non-trivial = contains a transaction and an attribute change; distinct = distinct sequence"
+	st.Rule = "random sequences on one connection of: UPDATE s3db_conn (deadline and/or write_time: a value, NULL, '' , malformed, or not mentioned), BEGIN/COMMIT/ROLLBACK, INSERTs (whose stored write time is read back from the tree), s3db_refresh (allowed or refused), SELECT * FROM s3db_conn; write_time values include well-formed times outside 1677..2262; the outcome of every UPDATE, every read-back and the stamp of every statement (explicit value, or a clock reading and whether it equals the previous statement's) are compared with the Lean connection model; non-trivial = contains a transaction and an attribute change; distinct = distinct sequence"
 	root := gen.New(*seed)
 	for ci := 0; ci < *n; ci++ {
 		r := root.Fork(ci)
@@ -66,6 +66,10 @@ func connCmd(args []string) int {
 					case 2:
 						return "-", "", "", true
 					case 3:
+						if !isDeadline && r.Intn(2) == 0 {
+							// well-formed, but outside what 64-bit nanoseconds express (F74): refused like a malformed one
+							return "bad", "", gen.Pick(r, []string{"9999-12-31 23:59:59", "2262-04-12 00:00:00", "1677-09-21 00:00:00", "1000-01-01 00:00:00"}), true
+						}
 						return "bad", "", gen.Pick(r, []string{"garbage", "2020-13-45 00:00:00", "12:00"}), true
 					}
 					k := r.Intn(1000)
@@ -113,6 +117,14 @@ func connCmd(args []string) int {
 					e.Op("conn end", "ok")
 				}
 				st.Count("end")
+			case op == 8 && r.Intn(2) == 0: // s3db_refresh: refused under a write time fixed at BEGIN, and over uncommitted rows
+				_, err := sqlh.Query(db, "select s3db_refresh(?)", tname)
+				res := "ok"
+				if err != nil {
+					res = "err"
+				}
+				e.Op("conn refresh", res)
+				st.Count("refresh_" + res)
 			case op < 10: // a statement
 				if inTx && !begun {
 					// SQLite calls xBegin when the table is first written in the transaction
